@@ -1301,7 +1301,6 @@ func reachableAfterSameIteration(from ssa.Instruction) map[ssa.Instruction]bool 
 	return out
 }
 
-
 // sameKeyValue: the same SSA value, or two calls of the same function (a token
 // decoder) on the same argument.
 func sameKeyValue(a, b ssa.Value) bool {
@@ -1324,7 +1323,6 @@ func sameKeyValue(a, b ssa.Value) bool {
 	}
 	return true
 }
-
 
 // isKeyIndexCall: call is h(base, k) (receiver first) where h scans the keys
 // of its receiver for its string parameter and returns the index at which it
